@@ -106,6 +106,15 @@ func renderAll(maps []*gostatsd.MetricMap, evs []*gostatsd.Event) string {
 
 func newRig(ctx context.Context, ns string, ih bool) *rig { return newRigLimit(ctx, ns, ih, 0) }
 
+// newRigEst: the parser's metric pool pre-sizes tag buffers for est tags (estimated-tags in the configuration + what the handler adds)
+func newRigEst(ctx context.Context, ns string, ih bool, badLines float64, est int) *rig {
+	estimatedTags = est
+	defer func() { estimatedTags = 0 }()
+	return newRigLimit(ctx, ns, ih, badLines)
+}
+
+var estimatedTags int
+
 // newRigLimit: badLines > 0 turns the rate-limited bad-line logging on (bad-lines-per-minute in the configuration)
 func newRigLimit(ctx context.Context, ns string, ih bool, badLines float64) *rig {
 	r := &rig{in: make(chan []*statsd.Datagram), h: &fakes.Handler{}, st: fakes.NewStatser(), ns: ns, ih: ih, panicCh: make(chan string, 1)}
@@ -113,7 +122,7 @@ func newRigLimit(ctx context.Context, ns string, ih bool, badLines float64) *rig
 	logger.SetLevel(logrus.PanicLevel)
 	logrus.SetLevel(logrus.PanicLevel)
 	logrus.SetOutput(io.Discard)
-	p := statsd.NewDatagramParser(r.in, ns, ih, 0, r.h, rate.Limit(badLines), false, logger)
+	p := statsd.NewDatagramParser(r.in, ns, ih, estimatedTags, r.h, rate.Limit(badLines), false, logger)
 	sctx := stats.NewContext(ctx, r.st)
 	go func() {
 		defer func() {
@@ -192,6 +201,19 @@ func TestCases(t *testing.T) {
 				rigKey = fmt.Sprint(ns, c.IH, "log")
 				res.Hit("bad-line-logging-on")
 			}
+			// estimated-tags: 0 (no pre-sized tag buffers), 1 and 2 (fewer than, as many as, more than a line's tags)
+			est := (idx / 4) % 3
+			badLim := 0.0
+			if idx%4 >= 2 {
+				badLim = 1e6
+			}
+			if est > 0 {
+				rigKey = fmt.Sprint(rigKey, "est", est)
+				if rigs[rigKey] == nil {
+					rigs[rigKey] = newRigEst(ctx, ns, c.IH, badLim, est)
+				}
+				res.Hit("tag-buffers-pre-sized")
+			}
 			r := rigs[rigKey]
 			var lines []string
 			for _, l := range c.Lines {
@@ -219,11 +241,7 @@ func TestCases(t *testing.T) {
 			distinct[text+fmt.Sprint(c.IH)] = true
 			if pan != "" {
 				res.Fail("C03", "parser-panic", fmt.Sprintf("DatagramParser panicked on %q: %s", text, pan), rec)
-				if idx%4 >= 2 {
-					rigs[rigKey] = newRigLimit(ctx, ns, c.IH, 1e6)
-				} else {
-					rigs[rigKey] = newRig(ctx, ns, c.IH)
-				}
+				rigs[rigKey] = newRigEst(ctx, ns, c.IH, badLim, est)
 				return nil
 			}
 			if !done {
